@@ -129,7 +129,8 @@ def gen_step(rng, L, ops=OPS, max_len=20000):
             count = rng.choice([1, 2]) if L <= max_len else 0
         return op, [old, new, ropt(rng, L), ropt(rng, L), count, rng.choice([None, None, False, True])]
     if op == 'byteswap':
-        fmt = rng.choice([None, 0, 1, 2, 3, [1, 2], [2, 1, 1], -1, [1, -1], [0, 0], [], 'h', '>2h', '<hb', 'q', 'xx', '2', rstructfmt(rng)])
+        fmt = rng.choice([None, 0, 1, 2, 3, [1, 2], [2, 1, 1], -1, [1, -1], [0, 0], [], 'h', '>2h', '<hb', 'q', 'xx', '2', rstructfmt(rng),
+                          rng.choice(['F', 'E', 'D', 'hF', '2Fh', '>hD', 'bE2b', 'e', '2f', '<d', 'ef', 'P', 'hs', '?', 'n'])])
         # a list of sizes may arrive as any iterable of integers: tuple, generator, iterator
         return op, [fmt, ropt(rng, L), ropt(rng, L), rng.choice([True, True, False]), rng.choice(['list', 'list', 'tuple', 'gen', 'iter'])]
     raise KeyError(op)
